@@ -235,20 +235,16 @@ def exprStamp (is : List Item) (v : Value) : Prop :=
 instance (is : List Item) (v : Value) : Decidable (exprStamp is v) := by
   unfold exprStamp; exact inferInstance
 
-/-- number of fraction digits the items print: 9 for `%f`, `%.f` (exact), `%.9f`, `%9f`; 6; 3; 0 -/
-def fracDigits (is : List Item) : Nat :=
-  is.foldl (fun acc it => max acc (match it with
-    | .numeric .nanosecond _ | .fixed .nanosecond | .fixed .nanosecond9 | .fixed .nanosecond9NoDot => 9
-    | .fixed .nanosecond6 | .fixed .nanosecond6NoDot => 6
-    | .fixed .nanosecond3 | .fixed .nanosecond3NoDot => 3
-    | _ => 0)) 0
-
 /-- digits a fraction item prints (`%.f` prints the exact fraction) -/
 def itemFracDigits : Item → Option Nat
   | .numeric .nanosecond _ | .fixed .nanosecond | .fixed .nanosecond9 | .fixed .nanosecond9NoDot => some 9
   | .fixed .nanosecond6 | .fixed .nanosecond6NoDot => some 6
   | .fixed .nanosecond3 | .fixed .nanosecond3NoDot => some 3
   | _ => none
+
+/-- number of fraction digits the items print: 9 for `%f`, `%.f` (exact), `%.9f`, `%9f`; 6; 3; 0 -/
+def fracDigits (is : List Item) : Nat :=
+  is.foldl (fun acc it => max acc ((itemFracDigits it).getD 0)) 0
 
 /-- the fraction cut to `k` digits, in nanoseconds -/
 def cutFrac (frac : Int) (k : Nat) : Int :=
